@@ -35,6 +35,8 @@ typedef struct {
   int is_rc;               /* the peer is a real LibVNCClient (vdrv_clip.c) */
   void *rc;
   int dec_on;              /* clipboard messages are decoded from out.rd on (vdrv_clip.c) */
+  int ws;                  /* the peer speaks RFB inside WebSocket binary frames (wsconnect) */
+  unsigned wsmask;
 } conn;
 
 static conn C[MAXC];
@@ -106,6 +108,19 @@ static void q_push(conn *c, const unsigned char *p, size_t n, int fin) {
   f->n = n; f->fin = fin;
   if (c->qt) c->qt->next = f; else c->qh = f;
   c->qt = f;
+}
+/* one masked binary WebSocket frame (RFC 6455) carrying these bytes = one fragment */
+static void q_push_ws(conn *c, const unsigned char *p, size_t n) {
+  unsigned char *f = (unsigned char *)malloc(n + 14); size_t h = 0, i; unsigned char m[4];
+  c->wsmask = c->wsmask * 1103515245u + 12345u;
+  m[0] = c->wsmask >> 24; m[1] = c->wsmask >> 16; m[2] = c->wsmask >> 8; m[3] = c->wsmask;
+  f[h++] = 0x82;
+  if (n < 126) f[h++] = 0x80 | (unsigned char)n;
+  else if (n < 65536) { f[h++] = 0x80 | 126; f[h++] = (unsigned char)(n >> 8); f[h++] = (unsigned char)n; }
+  else { int k; f[h++] = 0x80 | 127; for (k = 7; k >= 0; k--) f[h++] = (unsigned char)((unsigned long long)n >> (8 * k)); }
+  memcpy(f + h, m, 4); h += 4;
+  for (i = 0; i < n; i++) f[h + i] = p[i] ^ m[i & 3];
+  q_push(c, f, h + n, 0); free(f);
 }
 static void q_clear(conn *c) { while (c->qh) { frag *f = c->qh; c->qh = f->next; free(f->p); free(f); } c->qt = NULL; }
 
@@ -183,11 +198,12 @@ static void queue_frags(conn *c, const char *s) {
   while (*s) {
     const char *e = s; size_t n, i; unsigned char *b;
     while (*e && *e != ',' && !isspace((unsigned char)*e)) e++;
-    if (e - s == 1 && *s == '-') q_push(c, NULL, 0, 0);
+    if (e - s == 1 && *s == '-') { if (!c->ws) q_push(c, NULL, 0, 0); }
     else if (e > s) {
       n = (size_t)(e - s) / 2; b = (unsigned char *)malloc(n ? n : 1);
       for (i = 0; i < n; i++) b[i] = (unsigned char)(hexval(s[2 * i]) * 16 + hexval(s[2 * i + 1]));
-      q_push(c, b, n, 0); free(b);
+      if (c->ws) q_push_ws(c, b, n); else q_push(c, b, n, 0);
+      free(b);
     }
     if (*e != ',') break;
     s = e + 1;
@@ -275,7 +291,7 @@ int main(void) {
     while (len > 0 && (line[len - 1] == '\n' || line[len - 1] == '\r')) line[--len] = 0;
     if (sscanf(line, "%31s%n", op, &pos) < 1) continue;
     ev_reset();
-    if (!strcmp(op, "case")) { teardown(); puts(line); continue; }
+    if (!strcmp(op, "case")) { teardown(); puts(line); fflush(stdout); continue; }
     if (!strcmp(op, "screen")) {
       n = sscanf(line + pos, "%d %d %d %d %d %d %d %d %d", &a[0], &a[1], &a[2], &a[3], &a[4], &a[5], &a[6], &a[7], &a[8]);
       if (n != 9) { printf("?? %s\n", line); continue; }   /* a 10th number (model variant) is for the model driver only */
@@ -292,8 +308,8 @@ int main(void) {
       printf("sx %d %d\n", ScaleX(&f, &t, a[2]), ScaleY(&f, &t, a[2])); continue;
     }
     if (!S) { printf("?? no screen: %s\n", line); continue; }
-    if (!strcmp(op, "connect")) {
-      int sv[2], i, sz = 4 << 20; conn *c = NULL;
+    if (!strcmp(op, "connect") || !strcmp(op, "wsconnect")) {
+      int sv[2], i, sz = 4 << 20; conn *c = NULL; int isws = op[0] == 'w';
       n = sscanf(line + pos, "%d %d", &a[0], &a[1]);
       for (i = 0; i < MAXC; i++) if (!C[i].used) { c = &C[i]; break; }
       if (n != 2 || !c || by_id(a[0]) || socketpair(AF_UNIX, SOCK_STREAM, 0, sv) < 0) { printf("?? %s\n", line); continue; }
@@ -304,9 +320,16 @@ int main(void) {
       c->used = 1; c->id = a[0]; c->sfd = sv[0]; c->pfd = sv[1];
       next_id = a[0]; next_vo = a[1];
       c->cl = (rfbClientPtr)1;      /* visible to the select wrap during rfbNewClient's WebSocket peek */
+      if (isws) {
+        static const char req[] = "GET /vnc HTTP/1.1\r\nHost: verif\r\nUpgrade: websocket\r\nConnection: Upgrade\r\n"
+          "Sec-WebSocket-Key: dGhlIHNhbXBsZSBub25jZQ==\r\nOrigin: http://verif\r\nSec-WebSocket-Protocol: binary\r\n"
+          "Sec-WebSocket-Version: 13\r\n\r\n";
+        q_push(c, (const unsigned char *)req, sizeof req - 1, 0);   /* arrives when the server peeks */
+      }
       c->cl = rfbNewClient(S, sv[0]);
+      if (c->cl) c->ws = isws;
       drain_all();
-      print_state("connect"); continue;
+      print_state(op); continue;
     }
     if (!strcmp(op, "send")) {
       int p2 = 0; conn *c;
